@@ -21,6 +21,11 @@ vars == <<l, objs>>
 Ev == Rec[l]
 Has_(f) == f \in DOMAIN Ev
 Adv(cond, what) == IF cond THEN TRUE ELSE PrintT(<<"ADVISORY", l, what>>)
+(* The property whose check is validating this trace (environment variable PROPERTY; "ALL" = every clause  *)
+(* strict).  A clause is strict only under the properties whose statement covers it; under any other       *)
+(* property it is advisory, so that a check never raises an alarm about a statement it does not own.       *)
+Prop == IOEnv.PROPERTY
+Own(ps, cond, what) == IF Prop = "ALL" \/ Prop \in ps THEN cond ELSE Adv(cond, what)
 
 ---------------------------------------------------------------------------
 (* Input classes.                                                          *)
@@ -47,48 +52,46 @@ Rank5Ok ==
     LET h == Ev.words
         model == Rank5W(h) IN
     /\ Len(h) = 5
-    \* implementation-shaped stratum: strict on card-or-blank words (what C13 observes), advisory elsewhere
-    /\ Adv(Ev.or_bits = OrBits(h), "or_bits (not named by any property)")
-    /\ IF CardOrBlank(h) THEN
-            /\ Ev.or_rank_bits = OrRankBits(h) /\ Ev.dep_or = OrRankBits(h)
-            /\ Ev.and_bits = AndBits(h)
-            /\ Ev.flush = IsFlushW(h) /\ Ev.dep_flush = IsFlushW(h)
-            /\ Ev.wheel = IsWheelW(h)
-       ELSE Adv(/\ Ev.or_rank_bits = OrRankBits(h) /\ Ev.and_bits = AndBits(h) /\ Ev.flush = IsFlushW(h) /\ Ev.wheel = IsWheelW(h),
-                "bit observables / predicates on non-card words")
+    \* mechanism observables: named by no property
+    /\ Adv(/\ Ev.or_bits = OrBits(h) /\ Ev.or_rank_bits = OrRankBits(h) /\ Ev.dep_or = OrRankBits(h) /\ Ev.and_bits = AndBits(h),
+           "bit observables of the evaluator (mechanism, not named by any property)")
     /\ IF DistinctCards(h) THEN
             LET cs == CardSetOf(h)
                 v == ValueOfCards(cs)
                 cls == ClassOfCards(cs) IN
-            /\ NoPanic5
             /\ Assert(model = v, <<"SPEC ERROR: CactusKev does not refine PokerRules on", h>>)
-            /\ Ev.value = v /\ Ev.v_value = v /\ Ev.v_rank = v /\ Ev.v_validated = v       \* C01
-            /\ Ev.v_rank_validated = v /\ Ev.v_free = v
-            /\ ValidatedRankIs(v)
-            /\ Ev.witness = h                                                              \* C03
-            /\ Ev.name = CategoryName(Category(cls)) /\ Ev.class = ClassName(cls)           \* C06
-            /\ Ev.name = NameOfValue(v) /\ Ev.class = ClassOfValue(v)
-            /\ Ev.flush = IsFlushCards(cs) /\ Ev.straight = IsStraightCards(cs)             \* C13
-            /\ Ev.straight_flush = (IsFlushCards(cs) /\ IsStraightCards(cs))
-            /\ Ev.wheel = IsWheelCards(cs)
-            /\ Ev.straight = IsStraightW(h)
+            /\ Own({"C05"}, NoPanic5, "a ranking entry point unwound")
+            /\ Own({"C01"}, /\ Ev.value = v /\ Ev.v_value = v /\ Ev.v_rank = v /\ Ev.v_validated = v       \* C01
+                            /\ Ev.v_rank_validated = v /\ Ev.v_free = v, "five-card value (C01)")
+            /\ Own({"C04"}, /\ Ev.v_value \notin {0, -1} /\ Ev.v_validated = Ev.v_value                   \* C04
+                            /\ Ev.v_rank_validated = Ev.v_value /\ Ev.v_free = Ev.v_value, "validated = unvalidated on a valid hand (C04)")
+            /\ Own({"C06"}, /\ Ev.name = CategoryName(Category(cls)) /\ Ev.class = ClassName(cls)           \* C06
+                            /\ Ev.name = NameOfValue(v) /\ Ev.class = ClassOfValue(v) /\ Ev.v_rank = v
+                            /\ ValidatedRankIs(v) /\ Ev.v_rank_validated = v, "reported rank describes the cards (C06)")
+            /\ Own({"C03"}, Ev.witness = h /\ Ev.value = v, "five-card input reported unchanged (C03)")        \* C03
+            /\ Own({"C13"}, /\ Ev.flush = IsFlushCards(cs) /\ Ev.straight = IsStraightCards(cs)             \* C13
+                            /\ Ev.straight_flush = (IsFlushCards(cs) /\ IsStraightCards(cs))
+                            /\ Ev.wheel = IsWheelCards(cs) /\ Ev.dep_flush = IsFlushCards(cs)
+                            /\ Ev.straight = IsStraightW(h) /\ Ev.flush = IsFlushW(h) /\ Ev.wheel = IsWheelW(h), "predicates (C13)")
             /\ Adv(Ev.product = MultiplyPrimes(h), "multiply_primes (mechanism, not named by any property)")
             /\ Adv(Ev.idx = Find(Ev.product), "find_in_products index")
        ELSE IF CardOrBlank(h) THEN
-            /\ NoPanic5                                                                    \* C05
-            /\ (\E i \in 1..5 : h[i] = Blank) =>
-                  /\ Ev.value = 0 /\ Ev.v_value = 0 /\ Ev.v_rank = 0 /\ Ev.v_validated = 0
-                  /\ Ev.v_rank_validated = 0 /\ Ev.v_free = 0
-                  /\ Ev.name = Invalid /\ Ev.class = Invalid
-            /\ Ev.v_validated = 0 /\ Ev.v_free = 0 /\ Ev.v_rank_validated = 0               \* C04: not a hand
-            /\ ValidatedRankIs(0)
+            /\ Own({"C05"}, /\ NoPanic5                                                                  \* C05
+                            /\ (\E i \in 1..5 : h[i] = Blank) =>
+                                  /\ Ev.value = 0 /\ Ev.v_value = 0 /\ Ev.v_rank = 0 /\ Ev.v_validated = 0
+                                  /\ Ev.v_rank_validated = 0 /\ Ev.v_free = 0
+                                  /\ Ev.name = Invalid /\ Ev.class = Invalid /\ ValidatedRankIs(0),
+                   "card-or-blank five: returns normally; with a blank it is 0 / Invalid (C05)")
+            /\ Own({"C04"}, Ev.v_validated = 0 /\ Ev.v_free = 0 /\ Ev.v_rank_validated = 0, "validated ranking of a non-hand is 0 (C04)")
+            /\ Own({"C06"}, ValidatedRankIs(Ev.v_rank_validated), "the validated rank is the conversion of its value (C06)")
             /\ Adv(Ev.product = MultiplyPrimes(h), "multiply_primes (mechanism, not named by any property)")
             /\ Adv(Ev.value = model, "value of a repeated-card hand")
-            /\ Adv(Ev.straight = IsStraightW(h), "straight predicate on a non-hand")
+            /\ Adv(/\ Ev.straight = IsStraightW(h) /\ Ev.flush = IsFlushW(h) /\ Ev.dep_flush = IsFlushW(h) /\ Ev.wheel = IsWheelW(h), "predicates on a non-hand")
        ELSE
-            /\ Ev.v_validated = 0 /\ Ev.v_free = 0 /\ Ev.v_rank_validated = 0               \* C04: not a hand
-            /\ ValidatedRankIs(0)
+            /\ Own({"C04"}, Ev.v_validated = 0 /\ Ev.v_free = 0 /\ Ev.v_rank_validated = 0, "validated ranking of a non-hand is 0 (C04)")
+            /\ Own({"C06"}, ValidatedRankIs(Ev.v_rank_validated), "the validated rank is the conversion of its value (C06)")
             /\ Adv(Ev.value = model, "value of arbitrary words")
+            /\ Adv(/\ Ev.flush = IsFlushW(h) /\ Ev.wheel = IsWheelW(h), "predicates on non-card words")
 
 (* rankn: six / seven slots -- best-of loop, witness.                      *)
 WitnessOk(h, wit, v) ==
@@ -100,25 +103,27 @@ RankNOk ==
     LET h == Ev.words
         n == Len(h) IN
     /\ n \in {6, 7}
-    /\ Ev.valid = ValidSpec(h)                                                             \* C04
+    /\ Own({"C04"}, Ev.valid = ValidSpec(h), "is_valid (C04)")                                           \* C04
     /\ IF DistinctCards(h) THEN
             LET cs == CardSetOf(h)
                 v == Best(cs)
                 model == RankNV(h, RowsFor(n), "fixed", "checked") IN
-            /\ NoPanicN
             /\ Assert(DirectValue(cs) = v, <<"SPEC ERROR: Best and Direct disagree on", h>>)
             /\ Assert(model.value = v, <<"SPEC ERROR: best-of loop does not refine Best on", h>>)
             /\ Assert(WitnessOk(h, model.witness, v), <<"SPEC ERROR: model witness", h>>)
-            /\ Ev.value = v /\ Ev.v_value = v /\ Ev.v_rank = v                              \* C02
-            /\ Ev.v_validated = v /\ Ev.v_rank_validated = v                                \* C04
-            /\ ValidatedRankIs(v)
-            /\ WitnessOk(h, Ev.witness, v)                                                  \* C03
-            /\ Ev.name = NameOfValue(v) /\ Ev.class = ClassOfValue(v)                       \* C06
+            /\ Own({"C05"}, NoPanicN, "a ranking entry point unwound")
+            /\ Own({"C02"}, /\ Ev.value = v /\ Ev.v_value = v /\ Ev.v_rank = v                              \* C02
+                            /\ Ev.v_validated = v /\ Ev.v_rank_validated = v, "six/seven-card value (C02)")
+            /\ Own({"C04"}, /\ Ev.v_value \notin {0, -1} /\ Ev.v_validated = Ev.v_value                   \* C04
+                            /\ Ev.v_rank_validated = Ev.v_value, "validated = unvalidated on a valid hand (C04)")
+            /\ Own({"C03"}, Ev.value # -1 /\ WitnessOk(h, Ev.witness, Ev.value), "reported best hand (C03)")     \* C03
+            /\ Own({"C06"}, /\ Ev.name = NameOfValue(v) /\ Ev.class = ClassOfValue(v) /\ Ev.v_rank = v      \* C06
+                            /\ ValidatedRankIs(v) /\ Ev.v_rank_validated = v, "reported rank describes the cards (C06)")
             /\ Adv(Ev.witness = model.witness, "which of several tied witnesses")
        ELSE
-            /\ Ev.v_validated = 0 /\ Ev.v_rank_validated = 0                                \* C04
-            /\ ValidatedRankIs(0)
-            /\ CardOrBlank(h) => NoPanicN                                                   \* C05
+            /\ Own({"C04"}, Ev.v_validated = 0 /\ Ev.v_rank_validated = 0, "validated ranking of a non-hand is 0 (C04)")   \* C04
+            /\ Own({"C06"}, ValidatedRankIs(Ev.v_rank_validated), "the validated rank is the conversion of its value (C06)")
+            /\ CardOrBlank(h) => Own({"C05"}, NoPanicN, "a ranking entry point unwound on a card-or-blank hand (C05)")   \* C05
             /\ CardOrBlank(h) => Adv(Ev.value = RankNV(h, RowsFor(n), "fixed", "checked").value,
                                      "value of a six/seven-slot hand with blanks or repeats (best over its rankable five-slot selections)")
 
@@ -132,11 +137,15 @@ ValidOk ==
     /\ Adv(Ev.unique = UniqueAsWritten(h), "are_unique") /\ Adv(Ev.corrupt = IsCorrupt(h), "is_corrupt")
     /\ Adv(Ev.has_blank = ContainBlank(h), "contain_blank")
     /\ n >= 5 =>
-         LET v == IF valid THEN Best(CardSetOf(h)) ELSE 0 IN
-         /\ Ev.v_validated = v /\ Ev.v_rank_validated = v
-         /\ ValidatedRankIs(v)
-         /\ (n = 5 => Ev.v_free = v)
-         /\ (valid => Ev.v_value = v)
+         \* C04 relates validated ranking to validity and to unvalidated ranking; what the value of a valid
+         \* hand is, and what the rank record says, belongs to C01 / C02 / C06
+         /\ ~valid => (Ev.v_validated = 0 /\ Ev.v_rank_validated = 0 /\ (n = 5 => Ev.v_free = 0))
+         /\ valid => /\ Ev.v_value \notin {0, -1}
+                     /\ Ev.v_validated = Ev.v_value /\ Ev.v_rank_validated = Ev.v_value
+                     /\ (n = 5 => Ev.v_free = Ev.v_value)
+         /\ LET v == IF valid THEN Best(CardSetOf(h)) ELSE 0 IN
+            /\ Own({"C01", "C02"}, valid => Ev.v_value = v, "value of a valid hand (C01 / C02)")
+            /\ Own({"C06"}, ValidatedRankIs(v), "the validated rank record (C06)")
 
 FindOk == /\ Ev.res # -1                                                                   \* C05
           /\ Adv(Ev.res = Find(ClampKey(Ev.key)), "find_in_products index")
@@ -146,10 +155,11 @@ DealOk ==
     /\ Len(h) = 7 /\ DistinctCards(h)
     /\ Ev.v5 # -1 /\ Ev.v6 # -1 /\ Ev.v7 # -1
     /\ Ev.v7 <= Ev.v6 /\ Ev.v6 <= Ev.v5                                                    \* C09
-    /\ Ev.v5 = ValueOfCards(CardSetOf(SubSeq(h, 1, 5)))
-    /\ Ev.v6 = Best(CardSetOf(SubSeq(h, 1, 6)))
-    /\ Ev.v7 = Best(CardSetOf(h))
-    /\ Ev.v7 = DirectValue(CardSetOf(h))
+    \* what the values are belongs to C01 / C02; C09 only relates them to one another
+    /\ Own({"C01", "C02"}, /\ Ev.v5 = ValueOfCards(CardSetOf(SubSeq(h, 1, 5)))
+                           /\ Ev.v6 = Best(CardSetOf(SubSeq(h, 1, 6)))
+                           /\ Ev.v7 = Best(CardSetOf(h))
+                           /\ Ev.v7 = DirectValue(CardSetOf(h)), "values of the dealt hands (C01 / C02)")
 
 ---------------------------------------------------------------------------
 HrFromOk ==
@@ -194,28 +204,37 @@ SuitOfName(nm) == IF nm = "BLANK" THEN NoSuit ELSE CHOOSE s \in Suits : SuitEnum
 CreateOk == LET r == RankOfName(Ev.rank) s == SuitOfName(Ev.suit) IN
             /\ Ev.res = CreateSpec(r, s) /\ Ev.res = Create(r, s)                            \* C10
             /\ Ev.sig = (IF s = NoSuit THEN 0 ELSE 2^(12 + s))
-FilterOk == Ev.res = Filter(Ev.w) /\ Ev.res2 = Filter(Ev.w)                                 \* C04, C10
-AccOk == LET w == Ev.w IN
-         /\ Ev.rank = RankName(CardRankOf(w)) /\ Ev.suit = SuitName(CardSuitOf(w))           \* C10, C20
-         /\ Ev.prime = RankPrime(w) /\ Ev.rank_bit = RankBit(w) /\ Ev.rank_flag = RankFlag(w)
-         /\ Ev.suit_bit = SuitBit(w) /\ Ev.suit_flag = SuitFlag(w)
-         /\ Ev.rank_char = RankCharOf(w) /\ Ev.suit_char = SuitCharOf(w) /\ Ev.suit_letter = SuitLetterOf(w)
-         /\ Ev.blank = (w = Blank) /\ Ev.chen2 = ChenHalfPoints(w) /\ Ev.chen_exact = TRUE   \* C17
-         /\ IsCardWord(w) => (w = WordOf(CardRankOf(w), CardSuitOf(w)) /\ RankNumberField(w) = CardRankOf(w)
-                                /\ Ev.prime = PrimeOf[CardRankOf(w) + 1])
+FilterOk == Own({"C04", "C10"}, Ev.res = Filter(Ev.w) /\ Ev.res2 = Filter(Ev.w), "card recogniser (C04, C10)")   \* C04, C10
+\* C10 speaks of the 52 cards (and blank), C20 of marked cards; accessors on other words are named by nothing
+AccOk == LET w == Ev.w
+             fields == /\ Ev.rank = RankName(CardRankOf(w)) /\ Ev.suit = SuitName(CardSuitOf(w))
+                       /\ Ev.prime = RankPrime(w) /\ Ev.rank_bit = RankBit(w) /\ Ev.rank_flag = RankFlag(w)
+                       /\ Ev.suit_bit = SuitBit(w) /\ Ev.suit_flag = SuitFlag(w)
+                       /\ Ev.rank_char = RankCharOf(w) /\ Ev.suit_char = SuitCharOf(w) /\ Ev.suit_letter = SuitLetterOf(w)
+                       /\ Ev.blank = (w = Blank)
+         IN
+         /\ IF IsCardWord(w) \/ w = Blank THEN Own({"C10", "C12", "C20"}, fields, "accessors on a card (C10)")
+            ELSE IF IsCardWord(Strip(w)) THEN Own({"C20"}, fields, "accessors on a marked card (C20)")
+            ELSE Adv(fields, "accessors on a word that is neither a card nor a marked card")
+         /\ IsCardWord(w) => Own({"C17"}, Ev.chen2 = ChenHalfPoints(w) /\ Ev.chen_exact = TRUE, "per-card Chen points (C17)")   \* C17
+         /\ ~IsCardWord(w) => Adv(Ev.chen2 = ChenHalfPoints(w), "Chen points of a non-card word")
+         /\ IsCardWord(w) => (w = WordOf(CardRankOf(w), CardSuitOf(w)) /\ RankNumberField(w) = CardRankOf(w))
+\* C20 speaks of marking a card; marking other words is named by nothing
 FlagOk == LET w == Ev.w m == MarkAll(w, Ev.marks) IN
-          /\ Ev.res = m /\ Ev.stripped = Strip(m)                                           \* C20
-          /\ IsCardWord(w) => (Ev.stripped = w /\ (Ev.marks # <<>> => \A c \in CardWords : WGt(m, c)))
-ShiftWordOk == LET w == Ev.w IN
-               /\ Ev.res = ShiftCardSpec(w)                                                  \* C08
-               /\ Ev.next_suit = SuitName(NextSuit(w))
-               /\ Ev.res = ShiftWord(w)
+          IF IsCardWord(w)
+          THEN /\ Ev.res = m /\ Ev.stripped = Strip(m)                                       \* C20
+               /\ Ev.stripped = w /\ (Ev.marks # <<>> => \A c \in CardWords : WGt(m, c))
+          ELSE Adv(Ev.res = m /\ Ev.stripped = Strip(m), "marking / stripping a word that is not a card")
+ShiftWordOk == LET w == Ev.w
+                   ok == /\ Ev.res = ShiftCardSpec(w) /\ Ev.next_suit = SuitName(NextSuit(w)) /\ Ev.res = ShiftWord(w) IN
+               IF IsCardWord(w) \/ w = Blank THEN ok                                         \* C08
+               ELSE Adv(ok, "shift of a word that is neither a card nor blank")
 
 U64Small(k) == k[1] = 0 /\ k[2] = 0 /\ k[3] = 0
 DeckGetOk == /\ Ev.res = (IF U64Small(Ev.index) THEN DeckGet(Ev.index[4]) ELSE Blank)         \* C18
              /\ Ev.len = DeckSize
-DeckOk == /\ Ev.words = Deck                                                                 \* C18, C10
-          /\ Ev.bits = [i \in 1..DeckSize |-> LimbsOfBit(BitOfDeckIndex(i - 1))]              \* C14
+DeckOk == /\ Own({"C18", "C10", "C11"}, Ev.words = Deck, "the deck (C18, C10)")                    \* C18, C10
+          /\ Own({"C14"}, Ev.bits = [i \in 1..DeckSize |-> LimbsOfBit(BitOfDeckIndex(i - 1))], "the deck of bits (C14)")   \* C14
 TableOk == LET t == Ev.rows IN
            CASE Ev.name = "omaha" -> t = Comb42 /\ IsCombTable(t, 4, 2)                       \* C18
              [] Ev.name = "six"   -> t = Comb65 /\ IsCombTable(t, 6, 5)
@@ -243,6 +262,14 @@ SortOk == LET s == SortDesc(Ev.pre) IN
 ShiftHandOk == LET h == Ev.pre IN
                /\ CardOrBlank(h) => Ev.res = [i \in 1..Len(h) |-> ShiftCardSpec(h[i])]      \* C08
                /\ Adv(Ev.res = ShiftHand(h), "shift of non-card words")
+(* shift_value: a hand of five to seven distinct cards, the same hand shifted, and the values the code gives  *)
+(* to both through the unvalidated and the validated entry point.  C08 relates the two values to each other;  *)
+(* what the value is belongs to C01 / C02.                                                                    *)
+ShiftValueOk == LET h == Ev.pre IN
+                /\ DistinctCards(h) /\ Len(h) \in {5, 6, 7}
+                /\ Ev.res = [i \in 1..Len(h) |-> ShiftCardSpec(h[i])]                      \* C08
+                /\ Ev.v_pre # -1 /\ Ev.v_post = Ev.v_pre /\ Ev.vv_pre # -1 /\ Ev.vv_post = Ev.vv_pre
+                /\ Adv(Ev.v_pre = Best(CardSetOf(h)), "value of the hand (C01 / C02)")
 
 ---------------------------------------------------------------------------
 RankSymOk == Ev.res = RankName(RankSym(Ev.cp))                                              \* C12
@@ -259,7 +286,7 @@ ParseHandOk == LET toks == Split(Ev.s) n == Ev.n IN
                                    /\ Ev.res = ParseHand(n, Ev.s).words
                                    /\ (Has_("free") => (Ev.free_kind = "ok" /\ Ev.free = Ev.res))
                /\ Len(toks) > n => Adv(Ev.kind = "ok" /\ Ev.res = ParseHand(n, Ev.s).words, "extra tokens ignored")
-ParseSetOk == Ev.ok = TRUE /\ Ev.res = LimbsOfBitSet(ParseSetBits(Ev.s))                     \* C12, C15
+ParseSetOk == Own({"C15"}, Ev.ok = TRUE /\ Ev.res = LimbsOfBitSet(ParseSetBits(Ev.s)), "set built from text (C15)")   \* C15
 
 BcFromCkcOk == /\ Ev.res = FromCkc(Ev.w)                                                     \* C14
                /\ IsCardWord(Ev.w) => ToCkc(Ev.res) = Ev.w
@@ -300,42 +327,43 @@ AdvConstsOk == /\ Adv(Ev.possible_combinations = POSSIBLE_COMBINATIONS /\ Ev.pos
 EventOk ==
     CASE Ev.op = "rank5" -> Rank5Ok
       [] Ev.op = "rankn" -> RankNOk
-      [] Ev.op = "valid" -> ValidOk
-      [] Ev.op = "find" -> FindOk
-      [] Ev.op = "deal" -> DealOk
-      [] Ev.op = "hr_from" -> HrFromOk
-      [] Ev.op = "cmp" -> CmpOk
-      [] Ev.op = "enum_cmp" -> EnumCmpOk
-      [] Ev.op = "chen" -> ChenOk
-      [] Ev.op = "create" -> CreateOk
+      [] Ev.op = "valid" -> Own({"C04"}, ValidOk, "validity and validated ranking (C04)")
+      [] Ev.op = "find" -> Own({"C05"}, FindOk, "product search returns normally (C05)")
+      [] Ev.op = "deal" -> Own({"C09", "C01", "C02"}, DealOk, "dealing card by card (C09)")
+      [] Ev.op = "hr_from" -> Own({"C06"}, HrFromOk, "conversion of a value (C06)")
+      [] Ev.op = "cmp" -> Own({"C07"}, CmpOk, "comparison of two ranks (C07)")
+      [] Ev.op = "enum_cmp" -> Own({"C07"}, EnumCmpOk, "order of the enumerations (C07)")
+      [] Ev.op = "chen" -> Own({"C17"}, ChenOk, "Chen score (C17)")
+      [] Ev.op = "create" -> Own({"C10"}, CreateOk, "construction from rank and suit (C10)")
       [] Ev.op = "filter" -> FilterOk
       [] Ev.op = "acc" -> AccOk
-      [] Ev.op = "flag" -> FlagOk
-      [] Ev.op = "shift_word" -> ShiftWordOk
-      [] Ev.op = "deck_get" -> DeckGetOk
+      [] Ev.op = "flag" -> Own({"C20"}, FlagOk, "marking and stripping (C20)")
+      [] Ev.op = "shift_word" -> Own({"C08"}, ShiftWordOk, "card shift (C08)")
+      [] Ev.op = "deck_get" -> Own({"C18"}, DeckGetOk, "deck access (C18)")
       [] Ev.op = "deck" -> DeckOk
-      [] Ev.op = "table" -> TableOk
-      [] Ev.op = "preset" -> PresetOk
-      [] Ev.op \in {"c_from", "c_parts"} -> CNewOk
-      [] Ev.op = "c_set" -> CSetOk
-      [] Ev.op = "select5" -> Select5Ok
+      [] Ev.op = "table" -> Own({"C18"}, TableOk, "slot-index table (C18)")
+      [] Ev.op = "preset" -> Own({"C18"}, PresetOk, "preset table (C18)")
+      [] Ev.op \in {"c_from", "c_parts"} -> Own({"C19"}, CNewOk, "constructor (C19)")
+      [] Ev.op = "c_set" -> Own({"C19"}, CSetOk, "setter (C19)")
+      [] Ev.op = "select5" -> Own({"C19"}, Select5Ok, "slot-index selection (C19)")
       [] Ev.op = "c_default" -> CDefaultOk
-      [] Ev.op = "sort" -> SortOk
-      [] Ev.op = "shift_hand" -> ShiftHandOk
-      [] Ev.op = "rank_sym" -> RankSymOk
-      [] Ev.op = "suit_sym" -> SuitSymOk
-      [] Ev.op = "parse_card" -> ParseCardOk
-      [] Ev.op = "parse_hand" -> ParseHandOk
+      [] Ev.op = "sort" -> Own({"C11"}, SortOk, "sorting (C11)")
+      [] Ev.op = "shift_hand" -> Own({"C08"}, ShiftHandOk, "hand shift (C08)")
+      [] Ev.op = "shift_value" -> Own({"C08"}, ShiftValueOk, "value under shifting (C08)")
+      [] Ev.op = "rank_sym" -> Own({"C12"}, RankSymOk, "rank symbol (C12)")
+      [] Ev.op = "suit_sym" -> Own({"C12"}, SuitSymOk, "suit symbol (C12)")
+      [] Ev.op = "parse_card" -> Own({"C12"}, ParseCardOk, "token parser (C12)")
+      [] Ev.op = "parse_hand" -> Own({"C12"}, ParseHandOk, "hand parser (C12)")
       [] Ev.op = "parse_set" -> ParseSetOk
-      [] Ev.op = "bc_from_ckc" -> BcFromCkcOk
-      [] Ev.op = "ckc_from_bc" -> CkcFromBcOk
-      [] Ev.op = "bc_from_hand" -> BcFromHandOk
+      [] Ev.op = "bc_from_ckc" -> Own({"C14"}, BcFromCkcOk, "word to bit (C14)")
+      [] Ev.op = "ckc_from_bc" -> Own({"C14"}, CkcFromBcOk, "bit to word (C14)")
+      [] Ev.op = "bc_from_hand" -> Own({"C15"}, BcFromHandOk, "set from a hand (C15)")
       [] Ev.op = "bc_new" -> BcNewOk
-      [] Ev.op = "bc_fold" -> BcFoldOk
-      [] Ev.op = "bc_has" -> BcHasOk
-      [] Ev.op = "bc_info" -> BcInfoOk
-      [] Ev.op = "bc_peel" -> BcPeelOk
-      [] Ev.op = "two_from_bc" -> TwoFromBcOk
+      [] Ev.op = "bc_fold" -> Own({"C15"}, BcFoldOk, "fold-in (C15)")
+      [] Ev.op = "bc_has" -> Own({"C15"}, BcHasOk, "membership (C15)")
+      [] Ev.op = "bc_info" -> Own({"C15"}, BcInfoOk, "count / validity (C15)")
+      [] Ev.op = "bc_peel" -> Own({"C15"}, BcPeelOk, "peel (C15)")
+      [] Ev.op = "two_from_bc" -> Own({"C16"}, TwoFromBcOk, "two-card hand from a set (C16)")
       [] Ev.op = "adv_serde" -> AdvSerdeOk
       [] Ev.op = "adv_cmp" -> AdvCmpOk
       [] Ev.op = "adv_hr" -> AdvHrOk
